@@ -12,7 +12,7 @@ pub fn session(rng: &mut Rng) -> (Vec<String>, Vec<String>) {
     ];
     let nb = 2 + rng.below(4);
     for b in 0..nb {
-        let t = rng.below(11);
+        let t = rng.below(12);
         tags.push(format!("alloc-t{}", t));
         let u = b + 1;
         match t {
@@ -96,6 +96,17 @@ pub fn session(rng: &mut Rng) -> (Vec<String>, Vec<String>) {
                 f.push(format!("(list (rest{u}) (rest{u} 1) (rest{u} 1 2 3) (first-rest{u} 1) (first-rest{u} 1 2) (list) (list 1))", u = u));
                 f.push(format!("(build-list {})", n));
                 f.push(format!("(list (null? (rest{u})) (cdr (rest{u} 1)) (cdr (cdr (cdr (rest{u} 1 2 3)))) (apply rest{u} '(7 8)))", u = u));
+            }
+            11 => {
+                // code compiled by eval runs deep in the stack, calls a closure (its return address goes on the stack),
+                // returns and becomes garbage; the same evaluation goes on at a shallower depth, allocates, and fails:
+                // reporting the failure must not touch the dead part of the stack
+                f.push(format!("(define (zid{u} x) x)", u = u));
+                f.push(format!("(define (deep{u} n) (if (= n 0) (eval '(car (list (zid{u} {m})))) (+ 0 (deep{u} (- n 1)))))", u = u, m = m));
+                f.push(format!("(define (run{u}) (deep{u} {d}) (build-list {n}) (car {m}))", u = u, d = 3 + n * 3, n = n * 2, m = m));
+                f.push(format!("(run{u})", u = u));
+                f.push(format!("(begin (deep{u} {d}) (build-list {n}) (vector-ref (vector) (deep{u} 1)))", u = u, d = 2 + n, n = n));
+                f.push(format!("(deep{u} 2)", u = u));
             }
             _ => {
                 // nested data with sharing, partially dropped
